@@ -332,12 +332,34 @@ theorem stepLoc_id (T : Tables) (l : Loc) (id : Nat) (text : Bytes) : (stepLoc T
   · rfl
   · split <;> rfl
 
-theorem stepLoc_line1 (T : Tables) (l : Loc) (id : Nat) (text : Bytes) : (stepLoc T l id text).1.line = l.line := by
+def countNL : Bytes → Nat
+  | [] => 0
+  | b :: r => (if b == 0x0A then 1 else 0) + countNL r
+
+theorem skipLoc_line : ∀ (b : Bytes) (line col : Nat), (skipLoc b line col).1 = line + countNL b
+  | [], line, col => by simp [skipLoc, countNL]
+  | b :: r, line, col => by
+    simp only [skipLoc, countNL]
+    split
+    · rw [skipLoc_line r]; omega
+    · rw [skipLoc_line r]; omega
+
+/-- the line `Lex` is on when it looks at the next token: the stored line plus
+the newlines of the previous token, over which the location is advanced first -/
+def effLine (l : Loc) : Nat := if l.incCol then l.line + countNL l.tok else l.line
+
+theorem stepLoc_line1 (T : Tables) (l : Loc) (id : Nat) (text : Bytes) :
+    (stepLoc T l id text).1.line = effLine l := by
+  have hp : (if l.incCol then skipLoc l.tok l.line l.col else (l.line, l.col)).1 = effLine l := by
+    unfold effLine
+    split
+    · exact skipLoc_line _ _ _
+    · rfl
   unfold stepLoc
   simp only
   split
-  · rfl
-  · split <;> rfl
+  · exact hp
+  · split <;> exact hp
 
 theorem lexRawFuel_zero (T : Tables) (src : Bytes) (l : Loc) : lexRawFuel T 0 src l = ([], src) := by
   simp [lexRawFuel]
@@ -452,37 +474,44 @@ theorem lexRawFuel_rest (T : Tables) (hS : skipId T ≠ invalidId T) (hC : comme
 
 /-! ## line numbers -/
 
-def countNL : Bytes → Nat
-  | [] => 0
-  | b :: r => (if b == 0x0A then 1 else 0) + countNL r
-
-/-- by how much a token advances `loc.Line` -/
+/-- by how much a token advances the line: a COMMENT token by one (whether or
+not it ends in a newline), every other token — white space, and since the
+repair of the line bookkeeping also string literals — by its newlines -/
 def lineAdvance (T : Tables) (t : Tok) : Nat :=
-  if t.id == skipId T then countNL t.text else if t.id == commentId T then 1 else 0
-
-theorem skipLoc_line : ∀ (b : Bytes) (line col : Nat), (skipLoc b line col).1 = line + countNL b
-  | [], line, col => by simp [skipLoc, countNL]
-  | b :: r, line, col => by
-    simp only [skipLoc, countNL]
-    split
-    · rw [skipLoc_line r]; omega
-    · rw [skipLoc_line r]; omega
+  if t.id == commentId T ∧ t.id ≠ skipId T then 1 else countNL t.text
 
 theorem stepLoc_line2 (T : Tables) (l : Loc) (id : Nat) (text : Bytes) :
-    (stepLoc T l id text).2.line = l.line + lineAdvance T (stepLoc T l id text).1 := by
+    effLine (stepLoc T l id text).2 = effLine l + lineAdvance T (stepLoc T l id text).1 := by
+  have hp : (if l.incCol then skipLoc l.tok l.line l.col else (l.line, l.col)).1 = effLine l := by
+    unfold effLine
+    split
+    · exact skipLoc_line _ _ _
+    · rfl
   unfold lineAdvance
   rw [stepLoc_id, stepLoc_text]
   unfold stepLoc
   simp only
   split
-  · exact skipLoc_line _ _ _
-  · split <;> rfl
+  · rename_i h1
+    have h1' : id = skipId T := by simpa using h1
+    simp only [effLine, Bool.false_eq_true, if_false, skipLoc_line, hp, h1', ne_eq, not_true_eq_false,
+      and_false]
+  · rename_i h1
+    have h1' : id ≠ skipId T := by simpa using h1
+    split
+    · rename_i h2
+      have h2' : id = commentId T := by simpa using h2
+      simp [effLine, hp, h2']
+      intro h; exact absurd (h2' ▸ h) h1'
+    · rename_i h2
+      have h2' : id ≠ commentId T := by simpa using h2
+      simp [effLine, hp, h2']
 
 /-- **line numbers**: the line of every token is the start line plus the
-number of `\n` bytes in the SKIP tokens before it plus the number of COMMENT
-tokens before it. -/
+number of `\n` bytes in the non-comment tokens before it (white space and
+string literals) plus the number of COMMENT tokens before it. -/
 theorem lexRawFuel_line (T : Tables) : ∀ (f : Nat) (src : Bytes) (l : Loc) (pre : List Tok) (t : Tok) (post : List Tok),
-    (lexRawFuel T f src l).1 = pre ++ t :: post → t.line = l.line + (pre.map (lineAdvance T)).sum := by
+    (lexRawFuel T f src l).1 = pre ++ t :: post → t.line = effLine l + (pre.map (lineAdvance T)).sum := by
   intro f
   induction f with
   | zero => intro src l pre t post h; simp [lexRawFuel_zero] at h
